@@ -438,3 +438,109 @@ def show(t):
     if h == "inbounds":
         return "inbounds(%s, %s)" % (show(t[1]), t[2])
     return repr(t)
+
+
+# ------------------------------------------------------------------ bit-lane provenance
+def lanes(t):
+    """bits of a term, least significant first; each bit is 0, 1, (symbol, bit index) or None
+    (unknown).  Exact for pure shuffles (masks, constant shifts, extensions, disjoint or/add)."""
+    h = t[0]
+    w = width(t)
+    if h == "k":
+        return [(t[2] >> i) & 1 for i in range(w)]
+    if h == "v":
+        return [(t[1], i) for i in range(w)]
+    if h in ("sel", "load", "call"):
+        key = ("term", repr(t))
+        return [(key, i) for i in range(w)]
+    if h == "trunc":
+        return lanes(t[2])[:w]
+    if h == "zext":
+        b = lanes(t[2])
+        return b + [0] * (w - len(b))
+    if h == "sext":
+        b = lanes(t[2])
+        return b + [b[-1]] * (w - len(b))
+    if h == "op":
+        a, b = lanes(t[3]), lanes(t[4])
+        n = t[1]
+        if n == "and":
+            return [_band(x, y) for x, y in zip(a, b)]
+        if n == "or":
+            return [_bor(x, y) for x, y in zip(a, b)]
+        if n == "xor":
+            return [_bxor(x, y) for x, y in zip(a, b)]
+        if n == "add":
+            if all(x == 0 or y == 0 for x, y in zip(a, b)):
+                return [_bor(x, y) for x, y in zip(a, b)]
+            return [None] * w
+        return [None] * w
+    if h == "sh":
+        x = lanes(t[3])
+        amt = t[4][2]
+        if not is_k(amt):
+            return [None] * w
+        c = amt[2]
+        if t[1] == "shl":
+            return ([0] * c + x)[:w]
+        if t[1] == "lshr":
+            return x[c:] + [0] * c
+        return x[c:] + [x[-1]] * c
+    if h == "bswap":
+        x = lanes(t[2])
+        out = []
+        for i in reversed(range(w // 8)):
+            out.extend(x[8 * i:8 * i + 8])
+        return out
+    if h == "ite":
+        a, b = lanes(t[2]), lanes(t[3])
+        return [x if x == y else None for x, y in zip(a, b)]
+    return [None] * w
+
+
+def _band(x, y):
+    if x == 0 or y == 0:
+        return 0
+    if x == 1:
+        return y
+    if y == 1:
+        return x
+    return x if x == y else None
+
+
+def _bor(x, y):
+    if x == 1 or y == 1:
+        return 1
+    if x == 0:
+        return y
+    if y == 0:
+        return x
+    return x if x == y else None
+
+
+def _bxor(x, y):
+    if x == 0:
+        return y
+    if y == 0:
+        return x
+    if x == y and x is not None:
+        return 0
+    return None
+
+
+def lanes_str(bits):
+    """compact rendering: runs of consecutive symbol bits"""
+    out, i = [], 0
+    while i < len(bits):
+        b = bits[i]
+        if isinstance(b, tuple):
+            j = i
+            while j + 1 < len(bits) and isinstance(bits[j + 1], tuple) and bits[j + 1][0] == b[0] and bits[j + 1][1] == bits[j][1] + 1:
+                j += 1
+            nm = b[0] if isinstance(b[0], str) else "t"
+            out.append("%s[%d..%d]" % (nm, b[1], bits[j][1]))
+            i = j + 1
+        else:
+            out.append("?" if b is None else str(b))
+            i += 1
+    return " ".join(out)
